@@ -206,7 +206,7 @@ def oracle(stores, cases, impl):
                     sbad("srv-foreign", "live server: an element from outside the table / not matching is returned")
             elif toks.get("perpart") != "ok":
                 sbad("srv-order", "live server: elements of one partition are not in key order")
-        elif kind == "F":
+        elif kind in ("F", "G"):
             typ, table, count, match = c[1], unh(c[2]), int(c[3]), unh(c[4])
             pre = table + b":"
             raws = [x for x in st["T"].get(typ, []) if x.startswith(pre)]
@@ -214,7 +214,7 @@ def oracle(stores, cases, impl):
             if typ == "kv":
                 for raw in sorted(raws):
                     if not match or glob_match(match, raw):
-                        exp.append((raw, b"v" + raw))
+                        exp.append((raw, b""))          # the value is checked by the harness (VALBAD)
             else:
                 ct = {"hash": "h", "set": "s", "zset": "z"}.get(typ)
                 # element keys carry a 2-byte length of the stored key; under the compact TTL policy the stored key
@@ -227,7 +227,7 @@ def oracle(stores, cases, impl):
                     k = raw[len(pre):]
                     if match and not glob_match(match, k):
                         continue
-                    els = [b"x"] if typ == "list" else sorted(st["C"].get((ct, raw), []))
+                    els = [b""] if typ == "list" else sorted(st["C"].get((ct, raw), []))
                     exp += [(k, e) for e in els]
             hk = "fullscan %s count=%s%s" % (typ, "N" if count > 5 else count, " match" if match else "")
             hist[hk] = hist.get(hk, 0) + 1
@@ -247,7 +247,9 @@ def oracle(stores, cases, impl):
                 for grp in [g for g in pg.split(">", 1)[1].split(",") if g]:
                     k, es = grp.split("=", 1)
                     got += [(unh(k), unh(e)) for e in es.split("+")] if es else []
-            if "NONTERM" in head:
+            if "VALBAD" in head:
+                fbad("fullscan-value", "FULLSCAN: a key or list element is returned with a wrong value")
+            elif "NONTERM" in head:
                 fbad("fullscan-nonterm", "FULLSCAN: the iteration does not reach the empty cursor")
             elif bad_page:
                 fbad("fullscan-error", "FULLSCAN: a call failed: " + bad_page)
@@ -468,7 +470,7 @@ def run(ctx):
         for st in stores.values():
             if st["eng"]:
                 engines[st["eng"]] = engines.get(st["eng"], 0) + 1
-        ids = [k for k in cases if cases[k][0] in ("K", "E", "S", "F")]
+        ids = [k for k in cases if cases[k][0] in ("K", "E", "S", "F", "G")]
         for cid in ids[:2] + ids[-1:]:
             samples.append(dict(case=cases[cid], impl=(impl.get(cid) or "")[:400]))
 
